@@ -35,6 +35,10 @@ func (eval Evaluator) Average(ctIn *rlwe.Ciphertext, logBatchSize int, opOut *rl
 
 	level := utils.Min(ctIn.Level(), opOut.Level())
 
+	// The inner sum below operates on opOut alone
+	opOut.Resize(opOut.Degree(), level)
+	*opOut.MetaData = *ctIn.MetaData
+
 	n := 1 << (ctIn.LogDimensions.Cols - logBatchSize)
 
 	// pre-multiplication by n^-1
